@@ -303,19 +303,29 @@ fn reset_event(dom: &str, src: &str, case: u64) -> Value {
     json!({"ev": "reset", "dom": dom, "src": src, "case": case, "addr": ADDR})
 }
 
-/// observer burst on region r: every stored offset and its neighbours plus `extra`
-fn gets_op(m: &AnyMachine, r: usize, extra: &[i64]) -> Value {
-    let mut offs: Vec<i64> = Vec::new();
-    for c in m.cells(r).iter().take(8) {
-        for d in [-1, 0, 1] {
-            offs.push(c[0] + d);
+/// observer burst on region r: stored offsets and their neighbours (at most 10, rotating with
+/// `salt`) plus `extra`; two of the four sizes (rotating), so that both matching and
+/// non-matching sizes are read
+fn gets_op(m: &AnyMachine, r: usize, extra: &[i64], salt: u64) -> Value {
+    let mut cand: Vec<i64> = Vec::new();
+    for c in m.cells(r).iter() {
+        for d in [0, -1, 1] {
+            cand.push(c[0] + d);
         }
-        offs.push(c[0] + c[1] - 1);
+        cand.push(c[0] + c[1] - 1);
+    }
+    let mut offs: Vec<i64> = Vec::new();
+    if !cand.is_empty() {
+        let start = ((salt % 1009) as usize * 7) % cand.len();
+        for i in 0..cand.len().min(10) {
+            offs.push(cand[(start + i) % cand.len()]);
+        }
     }
     offs.extend_from_slice(extra);
     offs.sort();
     offs.dedup();
-    json!({"ev": "gets", "r": rname(r), "offs": offs, "sizes": [1, 2, 4, 8]})
+    let sizes = [[1, 2], [4, 8], [2, 4], [1, 8], [1, 4], [2, 8]][(salt % 6) as usize];
+    json!({"ev": "gets", "r": rname(r), "offs": offs, "sizes": sizes})
 }
 
 // ------------------------------------------------------------------------------------------
@@ -492,13 +502,13 @@ fn random_case(rng: &mut Rng, case: u64, n_ops: u64) -> (Vec<Value>, bool) {
         nontrivial |= interesting(&before, &after, &op);
         if g.rng.chance(1, 3) {
             let r = if op["ev"] == "merge" || op["ev"] == "copy" { ridx(&op["dst"]) } else { ridx(&op["r"]) };
-            let extra = [g.rng.range(lo - 2, lo + span + 2), g.rng.range(lo, lo + span), lo, lo + span];
-            let q = gets_op(&m, r, &extra);
+            let extra = [g.rng.range(lo - 2, lo + span + 2), *g.rng.pick(&[lo, lo + span])];
+            let q = gets_op(&m, r, &extra, g.rng.next());
             evs.push(m.exec(&q));
         }
     }
     for r in 0..2 {
-        let q = gets_op(&m, r, &[lo, lo + span]);
+        let q = gets_op(&m, r, &[lo, lo + span], g.rng.next());
         evs.push(m.exec(&q));
     }
     (evs, nontrivial)
@@ -517,7 +527,7 @@ fn run_ops(dom: &str, src: &str, case: u64, ops: &[Value], final_gets: bool) -> 
     }
     if final_gets {
         for r in 0..2 {
-            let q = gets_op(&m, r, &[-1, 0, 2]);
+            let q = gets_op(&m, r, &[-1, 0], case + ops.len() as u64 + r as u64);
             evs.push(m.exec(&q));
         }
     }
